@@ -61,6 +61,7 @@ type Conn struct {
 	readHeaderBuf  [8]byte
 	readControlBuf [maxControlPayload]byte
 	msgReader      *msgReader
+	closeReceived  bool // the peer's close frame was read; protected by readMu
 
 	// Write state.
 	msgWriter      *msgWriter
